@@ -379,12 +379,12 @@ def _make_orthogonal(fn):
 
 def _make_strict(fn):
     def clause(p):
-        """only on states that differ and overlap by a margin (oracle trace distance >= 1e-3, oracle fidelity >= 1e-3)"""
+        """only on states that differ and overlap by a margin (oracle trace distance in [1e-3, 1 - 1e-3], oracle fidelity >= 1e-2)"""
         from vt.contract import Undecided, Violation
 
         a, b, sing = _pair(p)
         t, f = _o_trace_distance(a, b), _o_fidelity(a, b)
-        if t < 1e-3 or f < 1e-3 or t > 1 - 1e-3:
+        if t < 1e-3 or f < 1e-2 or t > 1 - 1e-3:
             raise Undecided("pair is not different/overlapping by the required margin (T=%.3g, F=%.3g)" % (t, f))
         got = _call(fn, a, b).real
         lo, hi = {"fidelity": (0.0, 1.0), "trace_distance": (0.0, 1.0), "hilbert_schmidt": (0.0, 2.0), "helstrom_holevo": (0.5, 1.0), "bures_distance": (0.0, np.sqrt(2.0)), "bures_angle": (0.0, np.pi / 2), "sub_fidelity": (0.0, 1.0), "matsumoto_fidelity": (-1.0, 1.0)}[fn]
